@@ -11,6 +11,13 @@ XStep(st, e, t) ==
            LET r == Delete(st, e.key) IN
            IF e.res # r.res THEN Bad(st, "deleting an object: outcome (ok / KeyError) is not the specified one")
            ELSE Good(r.d)
+      [] e.e = "get" /\ t.scope = "arr" ->
+           LET r == ArrLookup(st, e.key) IN
+           IF ~r.ok THEN (IF e.res = "KeyError" THEN Good(st) ELSE Bad(st, "array: look-up of a sub-index that cannot exist did not raise KeyError"))
+           ELSE IF e.res # "ok" THEN Bad(st, "array: look-up of a defined or derivable member failed")
+           ELSE IF r.synth /\ (e.id # -2 \/ e.name # r.name) THEN Bad(st, "array: a member derived from member 1 is not a fresh variable named <member 1>_<hex sub-index>")
+           ELSE IF ~r.synth /\ e.id # r.id THEN Bad(st, "array: look-up returned another member")
+           ELSE Good(st)
       [] e.e = "get" ->
            LET r == Lookup(st, e.key) IN
            IF ~r.ok THEN (IF e.res = "KeyError" THEN Good(st) ELSE Bad(st, "look-up of a missing key did not raise KeyError"))
@@ -22,6 +29,7 @@ XStep(st, e, t) ==
            IF e.res # r.res THEN Bad(st, "look-up of 'Parent.member': outcome is not the specified one")
            ELSE IF r.res = "ok" /\ (e.id # r.id \/ e.rsub # r.sub) THEN Bad(st, "look-up of 'Parent.member' returned another variable")
            ELSE Good(st)
+      [] e.e = "contains" /\ t.scope = "arr" -> IF e.res = ArrContains(st, e.key) THEN Good(st) ELSE Bad(st, "array: membership is not 'defined, or derivable from member 1'")
       [] e.e = "contains" -> IF e.res = Contains(st, e.key) THEN Good(st) ELSE Bad(st, "membership is not 'key of the index map or of the name map'")
       [] e.e = "len" -> IF e.res = Length(st) THEN Good(st) ELSE Bad(st, "length is not the number of indexes")
       [] e.e = "iter" -> IF e.res = SetToSortSeq(DOMAIN st.ix, <) THEN Good(st) ELSE Bad(st, "iteration does not yield the indexes in ascending order")
